@@ -4,6 +4,7 @@ CONSTANTS
   Heights <- H3
   MaxBest = 3
   MaxStarts = 1000000
+  InPlace = FALSE
 VIEW genView
 ACTION_CONSTRAINT GenLog
 CHECK_DEADLOCK FALSE
